@@ -676,3 +676,7 @@ def r1c(cx):
                      'tests failing: an additional condition vetoes alias substitution (e.g. a word spelled like a reserved word in '
                      'command-name position after an assignment or redirection, `X=1 if`, where it IS an ordinary command name)',
                      loc=body.loc(body.term(p[min(len(p) - 1, 1)])), path=Q.render_path(body, p))
+
+
+# --- explanation addendum (generated catalogue in DESIGN.md reads RS.explanation)
+RS.explanation += ' Added later: substitute_alias refuses a substitution only through the reviewed tests (R1c); alias identity is answered by Source::is_alias_for only (R4b); line breaks are skipped again in every alias-retry loop that skipped them before the first attempt (R5b).'
